@@ -38,6 +38,7 @@ type World struct {
 	globalIDs map[*ssa.Global]int
 	pureExt   map[string]bool
 	ifaces    map[string]types.Type
+	recInProgress map[string]bool
 }
 
 func LoadWorld(repo string, extraSpecs []string) (*World, error) {
@@ -95,6 +96,30 @@ func LoadWorld(repo string, extraSpecs []string) (*World, error) {
 		nf[fc.Pkg+"."+fc.Name] = fc
 	}
 	cs.Funcs = nf
+	// a function that implements a named contract inherits its clauses
+	for _, k := range sortedKeys(cs.Funcs) {
+		fc := cs.Funcs[k]
+		for _, name := range fc.Implements {
+			target := cs.Funcs[fc.Pkg+"."+name]
+			if target == nil {
+				return nil, fmt.Errorf("%s implements unknown contract %s", k, name)
+			}
+			for _, cl := range target.Clauses {
+				cc := *cl
+				if cc.Label != "" {
+					cc.Label = name + "." + cc.Label
+				} else {
+					cc.Label = name
+				}
+				fc.Clauses = append(fc.Clauses, &cc)
+			}
+			for _, m := range target.Modifies {
+				if !contains(fc.Modifies, m) {
+					fc.Modifies = append(fc.Modifies, m)
+				}
+			}
+		}
+	}
 	for _, g := range cs.Ghosts {
 		k := w.ghostKey(g)
 		w.ghostKeys[k] = true
